@@ -63,9 +63,12 @@ def confirm(src):
     return out
 
 
-def do_import(src, sid, expect):
+ALL_CHECKS = ["C%02d" % i for i in range(1, 21)]
+
+
+def do_import(src, sid, expect, preserving=False):
     c = confirm(src)
-    ok = c.get("applies") and c.get("tests_pass") and c.get("demo_unchanged_exit") == 0 and c.get("demo_changed_exit", 0) != 0
+    ok = c.get("applies") and c.get("tests_pass") and c.get("demo_unchanged_exit") == 0 and ((c.get("demo_changed_exit", 1) == 0) if preserving else (c.get("demo_changed_exit", 0) != 0))
     print(json.dumps(c, indent=1))
     if not ok:
         print("NOT KEPT: confirmation failed")
@@ -83,6 +86,8 @@ def do_import(src, sid, expect):
             meta = {}
     keep = {
         "id": sid,
+        "kind": "preserving" if preserving else "breaking",
+        "argument": meta.get("argument") if preserving else None,
         "property": meta.get("property"),
         "summary": meta.get("summary"),
         "needs_to_manifest": meta.get("needs_to_manifest"),
@@ -100,7 +105,7 @@ def do_import(src, sid, expect):
 def run_one(sid, checks, tier):
     d = os.path.join(SEEDED, sid)
     meta = json.load(open(os.path.join(d, "meta.json")))
-    cs = checks or meta.get("expect") or [meta.get("property")]
+    cs = checks or (ALL_CHECKS if meta.get("kind") == "preserving" else None) or meta.get("expect") or [meta.get("property")]
     wt = worktree()
     res = {}
     try:
@@ -125,15 +130,24 @@ def do_run(only, checks, tier, jobs, record):
     with ThreadPoolExecutor(jobs) as ex:
         for sid, res in ex.map(lambda s: run_one(s, checks, tier), ids):
             fired = [c for c, r in res.items() if isinstance(r, dict) and r.get("exit") == 1]
-            print("%-14s %s  %s" % (sid, "CAUGHT by " + ",".join(fired) if fired else "MISSED", json.dumps(res)[:400]), flush=True)
-            if not fired:
-                missed += 1
+            mp = os.path.join(SEEDED, sid, "meta.json")
+            meta = json.load(open(mp))
+            if meta.get("kind") == "preserving":
+                noisy = [c for c, r in res.items() if not isinstance(r, dict) or r.get("exit") != 0]
+                print("%-14s %s  %s" % (sid, "FALSE-ALARM by " + ",".join(noisy) if noisy else "SILENT (all %d checks held)" % len(res), json.dumps({c: r for c, r in res.items() if c in noisy})[:600]), flush=True)
+                if noisy or "error" in res:
+                    missed += 1
+            else:
+                print("%-14s %s  %s" % (sid, "CAUGHT by " + ",".join(fired) if fired else "MISSED", json.dumps(res)[:400]), flush=True)
+                if not fired:
+                    missed += 1
             if record:
-                mp = os.path.join(SEEDED, sid, "meta.json")
-                meta = json.load(open(mp))
+                note = (meta.get("detected_by") or {}).get("note")
                 meta["detected_by"] = {"tier": tier, "checks_run": sorted(res), "fired": fired, "mechanisms": {c: r.get("mechanisms") for c, r in res.items() if isinstance(r, dict)}}
+                if note:
+                    meta["detected_by"]["note"] = note
                 json.dump(meta, open(mp, "w"), indent=1)
-    print("missed:", missed, "of", len(ids))
+    print("missed / false alarms:", missed, "of", len(ids))
     return 0
 
 
@@ -144,6 +158,7 @@ def main():
     i.add_argument("src")
     i.add_argument("id")
     i.add_argument("--expect", default="")
+    i.add_argument("--preserving", action="store_true")
     r = sub.add_parser("run")
     r.add_argument("--only")
     r.add_argument("--checks")
@@ -152,7 +167,7 @@ def main():
     r.add_argument("--record", action="store_true")
     a = ap.parse_args()
     if a.cmd == "import":
-        return do_import(a.src, a.id, [c for c in a.expect.split(",") if c])
+        return do_import(a.src, a.id, [c for c in a.expect.split(",") if c], a.preserving)
     if a.cmd == "run":
         return do_run(a.only.split(",") if a.only else None, a.checks.split(",") if a.checks else None, a.tier, a.jobs, a.record)
     ap.print_help()
